@@ -269,13 +269,13 @@ void file_observe(int step, const osmium::io::File& f, const json& exp) {
     const std::string ft = exp.at("format").get<std::string>();
     VH_EXPECT(step, ft, std::string{format_token(f.format())}, "format()");
     VH_EXPECT(step, ft == "unknown" ? std::string{"unknown"} : upper(ft), std::string{osmium::io::as_string(f.format())}, "as_string(format())");
+    VH_EXPECT(step, exp.at("compression").get<std::string>(), std::string{comp_token(f.compression())}, "compression()");
+    VH_EXPECT(step, exp.at("compression").get<std::string>(), std::string{osmium::io::as_string(f.compression())}, "as_string(compression())");
     {
         std::ostringstream ss;
         ss << f.format() << "/" << f.compression();
         VH_EXPECT(step, (ft == "unknown" ? std::string{"unknown"} : upper(ft)) + "/" + exp.at("compression").get<std::string>(), ss.str(), "operator<< of format and compression");
     }
-    VH_EXPECT(step, exp.at("compression").get<std::string>(), std::string{comp_token(f.compression())}, "compression()");
-    VH_EXPECT(step, exp.at("compression").get<std::string>(), std::string{osmium::io::as_string(f.compression())}, "as_string(compression())");
     VH_EXPECT(step, exp.at("multi").get<bool>(), f.has_multiple_object_versions(), "has_multiple_object_versions()");
     json got;
     try {
